@@ -100,7 +100,8 @@ def flag_value(test, flag, mode):
 
 
 class SeqEval(object):
-    def __init__(self, fn, flag, mode):
+    def __init__(self, fn, flag, mode, neutral=()):
+        self.neutral = tuple(neutral)
         self.fn = fn
         self.flag = flag
         self.mode = mode
@@ -174,7 +175,24 @@ class SeqEval(object):
         return out
 
     # -- evaluation ------------------------------------------------------
-    def base(self, text):
+    def base(self, text, expr=None, at=None):
+        if expr is not None:
+            # an opaque expression that receives the flag (or a value derived from it) may order or select by it: not a base
+            names = {x.id for x in ast.walk(expr) if isinstance(x, ast.Name)}
+            bad = set()
+            if self.flag in names:
+                bad.add(self.flag)
+            if at is not None:
+                for nm in names & flag_tainted(self.fn, self.flag, at, through_loops=False, control=False):
+                    # a value made by an order-neutral function (e.g. the bisecting window function, which returns a forward
+                    # slice) selects, it does not order: whether it selects the same elements is judged by the caller
+                    evs = self.events(nm, at)
+                    if evs and all(k == "assign" and isinstance(st.value, ast.Call) and pyfront.call_name(st.value) in self.neutral
+                                   for k, st in evs):
+                        continue
+                    bad.add(nm)
+            if bad:
+                raise Unknown("`%s` depends on `%s` through %s" % (text[:60], self.flag, sorted(bad)))
         if text not in self.bases:
             self.bases.append(text)
         if len(self.bases) > 1:
@@ -261,7 +279,7 @@ class SeqEval(object):
                 return list(reversed(self.value(e.value, at)))
             if isinstance(e.slice, ast.Slice) and e.slice.lower is None and e.slice.upper is None and e.slice.step is None:
                 return list(self.value(e.value, at))
-            return self.base(norm(ast.unparse(e)))
+            return self.base(norm(ast.unparse(e)), e, at)
         if isinstance(e, ast.Call):
             d = pyfront.call_name(e)
             if d in ("list", "tuple", "iter") and len(e.args) == 1:
@@ -284,7 +302,7 @@ class SeqEval(object):
             if d == "range":
                 args = [self.intval(a, at) for a in e.args]
                 return list(range(*args))
-            return self.base(norm(ast.unparse(e)))
+            return self.base(norm(ast.unparse(e)), e, at)
         if isinstance(e, (ast.Tuple, ast.List)) and not e.elts:
             return []
         raise Unknown("sequence expression `%s`" % norm(ast.unparse(e))[:80])
@@ -444,7 +462,7 @@ def residual(expr, env, flag, mode):
     return norm(ast.unparse(e))
 
 
-def flag_tainted(fn, flag, before):
+def flag_tainted(fn, flag, before, through_loops=True, control=True):
     """names assigned before statement `before` whose value may depend on the flag (assigned from an expression mentioning it or
     a tainted name, or assigned / mutated under a condition mentioning it)"""
     idx, order = preorder(fn)
@@ -479,10 +497,10 @@ def flag_tainted(fn, flag, before):
                     and isinstance(st.value.func.value, ast.Name):
                 names = {st.value.func.value.id}
                 dep = mentions(st.value)
-            elif isinstance(st, (ast.For, ast.AsyncFor)):
+            elif isinstance(st, (ast.For, ast.AsyncFor)) and through_loops:
                 names = {x.id for x in ast.walk(st.target) if isinstance(x, ast.Name)}
                 dep = mentions(st.iter)
-            if names and (dep or cond_tainted(st)) and not names <= tainted:
+            if names and (dep or (control and cond_tainted(st))) and not names <= tainted:
                 tainted |= names
                 changed = True
     return tainted - {flag}
